@@ -9,13 +9,28 @@ import traceback
 from .core import Ctx, MachineryError, SPEC, sany_check
 
 
+EXTRA_ROOTS = {'C16': ['AssemblyThreads.tla'], 'C15': ['Cache.tla'], 'C13': ['RGB.tla']}
+
+
 def setup():
+    """SANY-parse the specification.  Root modules of the checks registered in MANIFEST.json must parse (exit 2
+    otherwise); other modules (work in progress for properties not yet claimed) are parsed and reported only."""
+    import re
+    manifest = json.load(open(os.path.join(os.path.dirname(SPEC), 'MANIFEST.json')))
+    pids = [c['property_id'] for c in manifest.get('checks', [])]
     mods = sorted(f for f in os.listdir(SPEC) if f.endswith('.tla'))
+    required = set()
+    for pid in pids:
+        for f in mods:
+            if f == f'Trace{pid}.tla' or re.match(rf'MC_{pid}(_\w+)?\.tla$', f):
+                required.add(f)
+        required.update(EXTRA_ROOTS.get(pid, []))
     bad = sany_check(mods)
+    fatal = [m for m, _ in bad if m in required]
     for m, out in bad:
-        print(f'SANY failed for {m}:\n{out}')
-    print(f'setup: parsed {len(mods)} modules, {len(bad)} failed')
-    return 2 if bad else 0
+        print(f'SANY failed for {m}{" (REQUIRED)" if m in required else " (not used by a registered check)"}:\n{out[-600:]}')
+    print(f'setup: parsed {len(mods)} modules, {len(bad)} failed, {len(fatal)} fatal; registered checks: {" ".join(pids)}')
+    return 2 if fatal else 0
 
 
 def main(argv=None):
